@@ -11,7 +11,12 @@
    serialisation is [bits].  The transport's run loop is represented by the [a_active] flag
    (Transport.run: "while self.active"); Transport.close() clears it. *)
 From PV Require Import Bytes C39.
+From PV Require Export C14_gen.
 Open Scope Z_scope.
+
+(* constants regenerated from the source on every run (gen/c14.py -> Gen/C14_gen.v) *)
+Definition disc_svc : Z := gen_disc_service_not_available.   (* DISCONNECT_SERVICE_NOT_AVAILABLE *)
+Definition disc_nomore : Z := gen_disc_no_more_auth.         (* DISCONNECT_NO_MORE_AUTH_METHODS_AVAILABLE *)
 
 Definition beq : list Z -> list Z -> bool := zlist_eqb.
 
@@ -35,7 +40,7 @@ Definition gss_oids : list Z := [0;0;0;1;0;0;0;11;6;9;42;134;72;134;247;18;1;2;2
    add_string(service); add_string("publickey"); add_boolean(True);
    add_string(algorithm); add_string(bits) *)
 Definition blob_fields (sid user service alg bits : list Z) : list field :=
-  [FString sid; FByte 50; FString user; FString service; FString s_publickey; FBool true;
+  [FString sid; FByte gen_msg_userauth_request; FString user; FString service; FString s_publickey; FBool true;
    FString alg; FString bits].
 Definition session_blob (sid user service alg bits : list Z) : result (list Z) :=
   encode_all (blob_fields sid user service alg bits).
@@ -145,9 +150,9 @@ Definition disconnect (code : Z) (st : astate) : astate * list out :=
   (set_active st false, [ODisconnect code; OClose]).
 
 (* if self.auth_fail_count >= 10: self._disconnect_no_more_auth() *)
-Definition fail_limit : Z := 10.
+Definition fail_limit : Z := gen_fail_limit.
 Definition limit_check (st : astate) : astate * list out :=
-  if fail_limit <=? a_fails st then disconnect 14 st else (st, []).
+  if fail_limit <=? a_fails st then disconnect disc_nomore st else (st, []).
 
 (* ---- _send_auth_result --------------------------------------------------- *)
 Definition send_auth_result (st : astate) (res : cbres) : astate * list out :=
@@ -174,7 +179,7 @@ Definition then_do (r : astate * list out) (f : astate -> astate * list out) : a
 Definition h_service (st : astate) (e : env) (service : list Z) : astate * list out :=
   if beq service s_userauth
   then (st, [OAccept; OInfo InfoBanner] ++ (if e_banner e then [OBanner] else []))
-  else disconnect 7 st.
+  else disconnect disc_svc st.
 
 (* ---- _parse_userauth_request ---------------------------------------------- *)
 Section WithSig.
@@ -183,7 +188,7 @@ Variable sid : list Z.                                   (* transport.session_id
 
 Definition h_publickey (st : astate) (e : env) (user service : list Z)
            (sig_attached : bool) (alg keyblob sig : list Z) : astate * list out :=
-  if negb (e_keyok e) then disconnect 14 st
+  if negb (e_keyok e) then disconnect disc_nomore st
   else
     let cb := OCb CbPublickey (Some user) (e_res e) in
     match e_res e with
@@ -206,9 +211,10 @@ Definition h_publickey (st : astate) (e : env) (user service : list Z)
 
 Definition h_gss_mic_request (st : astate) (e : env) (mechs : Z) : astate * list out :=
   (* neither disconnect is followed by a return in the source *)
-  let r1 := if 1 <? mechs then disconnect 14 st else (st, []) in
-  let r2 := then_do r1 (fun s => if negb (e_mechok e) then disconnect 14 s else (s, [])) in
-  then_do r2 (fun s => (set_expected (set_gss s true) [61; 50; 5], [OGssResponse])).
+  let r1 := if 1 <? mechs then disconnect disc_nomore st else (st, []) in
+  let r2 := then_do r1 (fun s => if negb (e_mechok e) then disconnect disc_nomore s else (s, [])) in
+  then_do r2 (fun s => (set_expected (set_gss s true)
+       [gen_msg_userauth_gssapi_token; gen_msg_userauth_request; gen_msg_service_request], [OGssResponse])).
 
 Definition h_gss_keyex (st : astate) (e : env) (user : list Z) : astate * list out :=
   if negb (e_kexctx e) then
@@ -226,9 +232,9 @@ Definition h_none (st : astate) (e : env) (user : list Z) : astate * list out :=
 Definition h_request (st : astate) (e : env) (user service : list Z) (body : reqbody)
   : astate * list out :=
   if a_authed st then (st, [])
-  else if negb (beq service s_connection) then disconnect 7 st
+  else if negb (beq service s_connection) then disconnect disc_svc st
   else if match a_user st with Some u => negb (beq u user) | None => false end
-  then disconnect 14 st
+  then disconnect disc_nomore st
   else
     let st1 := set_user st (Some user) in
     then_do (st1, [OInfo InfoEnableGss]) (fun st1 =>
@@ -261,7 +267,8 @@ Definition h_gss_token (st : astate) (e : env) : astate * list out :=
   if e_tok e =? 0 then
     then_do (send_auth_result (set_gss st false) RFailed) (fun s => raise_out s (LibExc 1))
   else if e_tok e =? 1 then (st, [])
-  else (set_expected st [61; 66; 50], [OGssToken]).
+  else (set_expected st [gen_msg_userauth_gssapi_token; gen_msg_userauth_gssapi_mic; gen_msg_userauth_request],
+        [OGssToken]).
 
 Definition h_gss_mic (st : astate) (e : env) : astate * list out :=
   let st := set_gss st false in
@@ -323,22 +330,24 @@ Definition is_counted_failure (o : out) : bool := match o with OFailure false =>
 (* ---- wire form of the outputs (compared with the bytes the real code sends) ---- *)
 Definition wire (o : out) : result (list Z) :=
   match o with
-  | OSuccess => encode_all [FByte 52]
-  | OFailure p => encode_all [FByte 51; FString s_allowed; FBool p]
-  | OPkOk alg kb => encode_all [FByte 60; FString alg; FString kb]
-  | OInfoRequest => encode_all [FByte 60; FString s_qname; FString []; FString []; FU32 1;
+  | OSuccess => encode_all [FByte gen_msg_userauth_success]
+  | OFailure p => encode_all [FByte gen_msg_userauth_failure; FString s_allowed; FBool p]
+  | OPkOk alg kb => encode_all [FByte gen_msg_userauth_pk_ok; FString alg; FString kb]
+  | OInfoRequest => encode_all [FByte gen_msg_userauth_info_request; FString s_qname; FString []; FString []; FU32 1;
                                 FString s_prompt; FBool false]
-  | OAccept => encode_all [FByte 6; FString s_userauth]
-  | OBanner => encode_all [FByte 53; FString s_banner; FString s_lang]
-  | OGssResponse => Ok (60 :: gss_oids)
-  | OGssToken => encode_all [FByte 61; FString s_token]
-  | ODisconnect c => encode_all [FByte 1; FU32 c; FString (if c =? 7 then s_svc_na else s_no_more);
+  | OAccept => encode_all [FByte gen_msg_service_accept; FString s_userauth]
+  | OBanner => encode_all [FByte gen_msg_userauth_banner; FString s_banner; FString s_lang]
+  | OGssResponse => Ok (gen_msg_userauth_gssapi_response :: gss_oids)
+  | OGssToken => encode_all [FByte gen_msg_userauth_gssapi_token; FString s_token]
+  | ODisconnect c => encode_all [FByte gen_msg_disconnect; FU32 c; FString (if c =? disc_svc then s_svc_na else s_no_more);
                                  FString s_en]
   | _ => Ok []
   end.
 
 Definition res_code (r : cbres) : Z :=
   match r with RSuccess => 0 | RPartial => 1 | RFailed => 2 | RQuery => 3 end.
+(* the first three are AUTH_SUCCESSFUL / AUTH_PARTIALLY_SUCCESSFUL / AUTH_FAILED (checked against
+   gen_auth_results in Props/C14_props.v) *)
 Definition cb_code (k : cbkind) : Z :=
   match k with CbNone => 0 | CbPassword => 1 | CbPublickey => 2 | CbInteractive => 3
              | CbInteractiveResp => 4 | CbGssMic => 5 | CbGssKeyex => 6 end.
